@@ -470,3 +470,92 @@ impl Bridge for std::net::SocketAddr {
         }
     }
 }
+
+// ---- nalgebra ------------------------------------------------------------------------------
+impl Bridge for nalgebra::Point3<f32> {
+    fn to_val(&self) -> Val {
+        Val::Tuple(vec![self.x.to_val(), self.y.to_val(), self.z.to_val()])
+    }
+    fn from_val(v: &Val) -> Self {
+        let f = v.fields();
+        nalgebra::Point3::new(f32::from_val(&f[0]), f32::from_val(&f[1]), f32::from_val(&f[2]))
+    }
+}
+impl Bridge for nalgebra::Vector3<f64> {
+    fn to_val(&self) -> Val {
+        Val::Tuple(vec![self.x.to_val(), self.y.to_val(), self.z.to_val()])
+    }
+    fn from_val(v: &Val) -> Self {
+        let f = v.fields();
+        nalgebra::Vector3::new(f64::from_val(&f[0]), f64::from_val(&f[1]), f64::from_val(&f[2]))
+    }
+}
+
+// ---- library types whose wire format is not modelled ------------------------------------------
+macro_rules! bitvec_bridge {
+    ($t:ty) => {
+        impl Bridge for $t {
+            fn to_val(&self) -> Val {
+                Val::Seq(self.iter().map(Val::Bool).collect())
+            }
+            fn from_val(v: &Val) -> Self {
+                let mut b = <$t>::new();
+                for x in seq_items(v) {
+                    b.push(bool::from_val(x));
+                }
+                b
+            }
+            fn raw_check(&self, out: &mut Vec<String>) {
+                // the bit length must be backed by storage (32 bit blocks)
+                if self.len() > self.storage().len() * 32 {
+                    out.push(format!("BitVec claims {} bits but has storage for {}", self.len(), self.storage().len() * 32));
+                }
+            }
+        }
+    };
+}
+bitvec_bridge!(bit_vec::BitVec);
+bitvec_bridge!(bit_vec08::BitVec);
+macro_rules! bitset_bridge {
+    ($t:ty) => {
+        impl Bridge for $t {
+            fn to_val(&self) -> Val {
+                Val::Seq(self.iter().map(|i| Val::U(i as u128)).collect())
+            }
+            fn from_val(v: &Val) -> Self {
+                let mut b = <$t>::new();
+                for x in seq_items(v) {
+                    b.insert(x.as_u() as usize);
+                }
+                b
+            }
+            fn raw_check(&self, out: &mut Vec<String>) {
+                let bv = self.get_ref();
+                if bv.len() > bv.storage().len() * 32 {
+                    out.push(format!("BitSet's BitVec claims {} bits but has storage for {}", bv.len(), bv.storage().len() * 32));
+                }
+            }
+        }
+    };
+}
+bitset_bridge!(bit_set::BitSet);
+bitset_bridge!(bit_set08::BitSet);
+impl Bridge for std::io::Error {
+    fn to_val(&self) -> Val {
+        Val::Tuple(vec![Val::Str(format!("{:?}", self.kind())), Val::Str(self.to_string())])
+    }
+    fn from_val(v: &Val) -> Self {
+        use std::io::ErrorKind::*;
+        let f = v.fields();
+        let kind = match f[0].as_str() {
+            "NotFound" => NotFound,
+            "PermissionDenied" => PermissionDenied,
+            "UnexpectedEof" => UnexpectedEof,
+            "InvalidData" => InvalidData,
+            "TimedOut" => TimedOut,
+            "BrokenPipe" => BrokenPipe,
+            _ => Other,
+        };
+        std::io::Error::new(kind, f[1].as_str().to_string())
+    }
+}
